@@ -287,6 +287,9 @@ type LState struct {
 	mainLoop     func(*LState, *callFrame)
 	ctx          context.Context
 	ctxCancelFn  context.CancelFunc
+	// number of Go->Lua re-entries (Call from a Go function, metamethods,
+	// iterators) active on this thread; a yield cannot cross them
+	nCcalls int
 }
 
 func (ls *LState) String() string   { return fmt.Sprintf("thread: %p", ls) }
